@@ -25,6 +25,13 @@ CHECKS = {
         note="Trusted: CPython ast; the seed types of cell/positions/matrices (documented conventions of PhonopyAtoms and the Supercell/Primitive docstrings). Unknown operands type to unknown and are never reported.",
         ref="DESIGN.md §3 C04",
     ),
+    "C08": dict(
+        technique="static analysis: element-wise symbolic execution of the NAC kernels' loop nests over the clang-14 JSON AST (literal-bound loops unrolled, size-bound loops run once for a generic index, array cells as patterns, callees inlined) giving closed sympy forms of a generic array element; homogeneity tests by substitution (direction -> s direction, Born -> s Born); who-writes and subscript-dependence rules; open-term comparison of the Python fallback with the same closed form",
+        level="other",
+        text="Decides the zone-centre clauses for both methods: the term added along a direction n is nac_factor (n.Z_j)_a (n.Z_j')_b / (n.eps.n) (Wang: kernel and Python fallback, per image 1/N; Gonze-Lee: the G+q=0 term n_a n_b/(n.eps.n) dressed by multiply_borns), it is homogeneous of degree 0 in n -- hence independent of the length of n --, every correction term is bilinear in the Born charges -- hence zero charges switch it off --, and the Wang addend is the same for all supercell images of a primitive atom, which is what makes it cancel at non-zero commensurate q. Does not decide the cancellation of the Gonze-Lee reciprocal sum at commensurate points (a lattice-sum identity realised by a run-time G list), its stated precision, or the mass weighting / eigenvalues.",
+        note="Trusted: clang-14 JSON AST, sympy. Assumption printed in the evidence: dd_q0 comes from the same Born dressing. The zone-centre switch tolerance is compared across languages under C13 (R13e).",
+        ref="DESIGN.md §3 C08",
+    ),
     "C09": dict(
         technique="static analysis on Python ast: structural proof obligations on the weight construction (open-term comparison), typestate over guard-correlated paths for the coupled symmetry flags, sibling keyword agreement for stored/iterated meshes, axis/weight abstract interpretation of nine mesh consumers (every sum/dot/einsum/loop accumulation over the irreducible q axis carries the weight; result homogeneous of degree 0 in the weights), pairwise precondition rule for the rotations (mesh numbers and half-shift flags per lattice-equivalent axis pair), guard-before-construction rule for consumers that need an unreduced mesh",
         level="other",
@@ -117,7 +124,6 @@ NOT_APPLICABLE = {
     "C05": "completeness of the 65-point search window is a theorem about lattices, not a shape of the code; bounded-write and sparse/dense agreement fragments are under C13",
     "C06": "losslessness of FC<->D(q) and the |det S| count are numerical/number-theoretic statements about loop nests",
     "C07": "projection/idempotence and compact==full are relations over all arrays; the defect class depends on which index pairs coincide at run time",
-    "C08": "the NAC limits are analytic identities realised by C loop nests; only cross-language constant agreement is structural (checked under C13)",
 }
 
 
